@@ -46,10 +46,14 @@ type pending struct {
 func (w *writer) l(anchor, text string) {
 	w.cur = append(w.cur, pending{anchor, text, w.depth})
 }
-func (w *writer) open(anchor, text string)  { w.l(anchor, text); w.depth++ }
-func (w *writer) close()                    { w.depth--; w.l("", "}") }
-func (w *writer) endBlock()                 { w.blocks = append(w.blocks, w.cur); w.cur = nil }
-func (w *writer) opt(cond bool, f func())   { if cond { f() } }
+func (w *writer) open(anchor, text string) { w.l(anchor, text); w.depth++ }
+func (w *writer) close()                   { w.depth--; w.l("", "}") }
+func (w *writer) endBlock()                { w.blocks = append(w.blocks, w.cur); w.cur = nil }
+func (w *writer) opt(cond bool, f func()) {
+	if cond {
+		f()
+	}
+}
 
 // finish lays the blocks out according to the style. The header (first block) always stays first.
 func (w *writer) finish() string {
